@@ -9,6 +9,8 @@
 (*   all   "T"/"F"   --all-matches                                         *)
 (*   addr  "T"/"F"   --return_only_address                                 *)
 (*   macros  sequence of macro file ids (--macros f1 f2 ...)               *)
+(*   dbg   "T"/"F"   --debug (more log output; the result lines and the    *)
+(*                   exit status must not depend on it)                    *)
 (*   pair  id of the (rule, input) pair                                    *)
 (* The library result for the same options is a parameter (api): C20 says  *)
 (* the command reports exactly that.                                       *)
@@ -36,6 +38,6 @@ OracleConsistent(api) == api.outcome = "ok" => (api.found <=> api.list # <<>>)
 Srcs == {{}, {"s"}, {"b"}, {"s", "b"}}
 MacroLists == {<<>>, <<"m1">>, <<"m1", "m2">>, <<"m2", "m1">>}
 Invocations(pairs) ==
-    { [pat |-> p, src |-> s, all |-> a, addr |-> d, macros |-> m, pair |-> pr]
-      : p \in {"T", "F"}, s \in Srcs, a \in {"T", "F"}, d \in {"T", "F"}, m \in MacroLists, pr \in pairs }
+    { [pat |-> p, src |-> s, all |-> a, addr |-> d, macros |-> m, pair |-> pr, dbg |-> g]
+      : p \in {"T", "F"}, s \in Srcs, a \in {"T", "F"}, d \in {"T", "F"}, m \in MacroLists, pr \in pairs, g \in {"T", "F"} }
 =============================================================================
